@@ -27,6 +27,54 @@ def _q_of(enc: Encoded, xb_new: Any) -> Any:
     return z3.substitute(enc.q32, (enc.xbits, xb_new))
 
 
+def real_up_probability(fmt: Any, E: int, M: int, srbits: int, xbits: int) -> Optional[Tuple[Fraction, Fraction, int, List[int]]]:
+    """Replay helper: the real quantise on 2^s copies of one float32 value (s = srbits, or 23-M for 'all discarded bits'), with torch.randint
+    answered by every value of the range it asks for equally often; returns (counted probability of the upper neighbour, exact fractional
+    position, s, requested ranges) or None when the draws cannot be enumerated that way (then nothing is concluded)."""
+    s_eff = srbits or (23 - M)
+    N = 2 ** s_eff
+    x = torch.tensor([xbits - (1 << 32) if xbits >= 2 ** 31 else xbits], dtype=torch.int32).view(torch.float32).expand(N).clone()
+    xv = x[0].item()
+    a, lo, hi, u = c_neighbours(E, M, xv)
+    if hi == lo or a != Fraction(abs(xv)):
+        return None
+    orig = torch.randint
+    highs: List[int] = []
+    state = {"ok": True}
+
+    def fake(*args: Any, **k: Any) -> torch.Tensor:
+        r = orig(*args, **k)
+        nums = []
+        for v in args:
+            if isinstance(v, int) and not isinstance(v, bool):
+                nums.append(v)
+            else:
+                break
+        low, high = (nums[0], nums[1]) if len(nums) >= 2 else (0, nums[0]) if nums else (k.get("low", 0), k.get("high"))
+        low, high = k.get("low", low), k.get("high", high)
+        if high is None or r.numel() % (high - low) != 0:
+            state["ok"] = False
+            return r
+        highs.append(high - low)
+        r.copy_((torch.arange(r.numel(), dtype=torch.int64) % (high - low) + low).reshape(r.shape).to(r.dtype))
+        return r
+
+    torch.randint = fake
+    try:
+        q = fmt.quantise(x)
+    except Exception:
+        return None
+    finally:
+        torch.randint = orig
+    if not state["ok"] or len(highs) != 1:
+        return None
+    ups = int((q.abs().double() == float(hi)).sum().item())
+    downs = int((q.abs().double() == float(lo)).sum().item())
+    if ups + downs != N:
+        return None
+    return Fraction(ups, N), (a - lo) / (hi - lo), s_eff, highs
+
+
 # ----------------------------------------------------------------------------- concrete claim evaluation (replay)
 def concrete_eval(E: int, M: int, rounding: str, srbits: int, claim: str, w: Dict[str, int],
                   dtype: str = "float32", shape: Tuple[int, ...] = (3,)) -> Tuple[bool, str]:
@@ -67,7 +115,16 @@ def concrete_eval(E: int, M: int, rounding: str, srbits: int, claim: str, w: Dic
         n = q.numel()
         got = sum(q._verif_drawn)
         ok = (rounding != "stochastic") or got >= n
-        return ok, f"{dtype}{list(shape)}: {n} elements, random integers requested per call {q._verif_drawn}"
+        desc = f"{dtype}{list(shape)}: {n} elements, random integers requested per call {q._verif_drawn}"
+        if ok and rounding == "stochastic" and dtype == "float32":
+            # the draw's range decides whether the probability can be exact: counted on the real code over EVERY value of the draw
+            pr = real_up_probability(fmt, E, M, srbits, xbits)
+            if pr is not None:
+                P, pexact, s_eff, highs = pr
+                tol = Fraction(0) if srbits == 0 else Fraction(1, 2 ** (s_eff + 1))
+                ok = abs(P - pexact) <= tol
+                desc += f"; x={x32!r}: P(round away from zero) over all draws of randint ranges {highs} = {P}, exact fractional position {pexact}, allowed deviation {tol}"
+        return ok, desc
     if q.numel() == 0:
         return True, "empty"
     qv = q.flatten()[0].double().item()
@@ -203,7 +260,8 @@ def _task(E: int, M: int, rounding: str, srbits: int, claim: str, timeout_s: flo
         if ok:
             record(PROVED, 0.0, f"ops={sorted(set(enc.sess.ops))} draws={[(d[1], d[2]) for d in enc.sess.draws]} events={enc.sess.events}", kind="structural")
         else:
-            confirm({"x": 0x3FC00000 if dtype == "float32" else 0x3FF8000000000000 if dtype == "float64" else 0x3FC0 if dtype == "bfloat16" else 0x3E00},
+            # float32 witness 1.35 (all mantissa bits in play: the replay counts the rounding probability over every draw)
+            confirm({"x": 0x3FACCCCD if dtype == "float32" else 0x3FF8000000000000 if dtype == "float64" else 0x3FC0 if dtype == "bfloat16" else 0x3E00},
                     f"draws={[(d[1], d[2]) for d in enc.sess.draws]} events={enc.sess.events}")
         return recs
     if enc.out.scrambled or enc.q32 is None:
